@@ -30,6 +30,9 @@ IdField == Field("Auto", D1("primary_key", TRUE))
 Model(name, fields, ut, idx) == [table |-> "t_" \o name, fields |-> fields,
                                  ut |-> ut, uta |-> TRUE, idx |-> idx, cons |-> <<>>]
 Idx(name, fields) == [name |-> name, fields |-> fields]
+(* an expression-only index, Index(F(field), name=...): it has no field list at all *)
+IdxE(name, field) == [name |-> name, fields |-> <<>>, expr |-> field]
+ExprOf(ix) == IF "expr" \in DOMAIN ix THEN {ix.expr} ELSE {}
 (* Meta.constraints (see Optimizer.tla): a check on g, a unique over (f, g) *)
 CkG  == [kind |-> "check", fields |-> <<>>, name |-> "ck_g", cond |-> "g"]
 UqFG == [kind |-> "unique", fields |-> <<"f", "g">>, name |-> "uq_fg", cond |-> None]
@@ -48,6 +51,11 @@ Start(id) ==
                             f |-> Field("Char", D1("max_length", 10)),
                             g |-> Field("Int", EmptyDict)], <<>>, <<>>)
                   EXCEPT !.cons = <<CkG, UqFG>>]]
+    [] id = 5 ->          \* an expression-only index next to a plain one
+        [A |-> Model("A", [id |-> IdField,
+                           f |-> Field("Char", D1("max_length", 10)),
+                           g |-> Field("Int", EmptyDict)],
+                     <<>>, << IdxE("ixe", "g"), Idx("ix1", <<"f">>) >>)]
     [] id = 3 ->          \* several unique_together entries, NOT in sorted order, over fields
                           \* that are never edited next to fields that are
         [A |-> Model("A", [id |-> IdField,
@@ -84,7 +92,7 @@ EditAddField(m, f) ==
 EditDeleteField(m, f) ==
     /\ m \in DOMAIN new /\ f \in DOMAIN new[m].fields /\ f # "id"
     /\ (\A i \in 1..Len(new[m].ut) : ~InSeq(f, new[m].ut[i]))
-    /\ (\A i \in 1..Len(new[m].idx) : ~InSeq(f, new[m].idx[i].fields))
+    /\ (\A i \in 1..Len(new[m].idx) : ~InSeq(f, new[m].idx[i].fields) /\ f \notin ExprOf(new[m].idx[i]))
     /\ (\A i \in 1..Len(It(new[m])) : ~InSeq(f, It(new[m])[i]))
     /\ (\A i \in 1..Len(new[m].cons) : ~InSeq(f, new[m].cons[i].fields) /\ new[m].cons[i].cond # f)
     /\ Step([new EXCEPT ![m].fields = Drop(@, f)])
@@ -123,9 +131,10 @@ EditIndexTogether(m) ==
 EditIndexes(m) ==
     /\ m \in DOMAIN new
     /\ \E v \in { <<>>, << Idx("ix1", <<"f">>) >>, << Idx("ix2", <<"g">>), Idx("ix1", <<"f">>) >>,
-                  << Idx("ix1", <<"f">>), Idx("ix2", <<"g">>) >> } :
+                  << Idx("ix1", <<"f">>), Idx("ix2", <<"g">>) >>,
+                  << IdxE("ixe", "g") >>, << Idx("ix1", <<"f">>), IdxE("ixe", "g") >> } :
           v # new[m].idx
-          /\ (\A i \in 1..Len(v) : SeqSet(v[i].fields) \subseteq DOMAIN new[m].fields)
+          /\ (\A i \in 1..Len(v) : SeqSet(v[i].fields) \cup ExprOf(v[i]) \subseteq DOMAIN new[m].fields)
           /\ Step([new EXCEPT ![m].idx = v])
 EditConstraints(m) ==
     /\ m \in DOMAIN new
